@@ -341,8 +341,12 @@ class Defs:
         return out
 
     def system_members(self, name: str) -> set:
+        using = self.systems[name]["using"]
+        if not using:
+            # a system declared without 'using' takes the root group: every unit
+            return set(self.units)
         out = set()
-        for g in self.systems[name]["using"]:
+        for g in using:
             out |= self.group_members(g)
         return out
 
